@@ -89,6 +89,12 @@ def genC03Cases (tier : String) (seed : Nat) : Array Case := Id.run do
     out := out.push { c with note := Json.mkObj [("kf", (kfParse s : Json)), ("chains", c.note)] }
   pure out
 
+/-- C03 at the level of the table: the expanded statements of a pair combination, exported
+    (also to a file), complete and linked -/
+def c03TabArgs (text : String) (i : Nat) : Json :=
+  Json.mkObj [("text", (text : Json)), ("id", ("650" : Json)), ("ext", ((i % 2 = 0 : Bool) : Json)), ("ann", (false : Json)),
+    ("fmt", ((if i % 3 = 0 then "gs" else "csv") : Json)), ("hdr", (true : Json)), ("withparse", (true : Json)), ("file", (true : Json))]
+
 /-- strip the effective-value keys that the canonical PNode does not carry -/
 def judgeParse (c : Case) (o : ObsLine) : Verdict :=
   match o.st with
